@@ -114,6 +114,10 @@ def build_equilibrium(ctx, topo, psi_pf=(0.9, 0.9), size_prefix=""):
         eq.x_points, eq.psi_sep = [upx], [1.0]
     elif topo in ("cdn", "cdn_upper_outer_start"):
         eq.x_points, eq.psi_sep = [lowx, upx], [1.0, 1.0]
+    elif topo == "cdn_unbalanced":  # connected (nx_inter_sep=0) although the separatrices differ slightly
+        eq.x_points, eq.psi_sep = [lowx, upx], [1.0, 1.02]
+    elif topo == "cdn_upper_primary":
+        eq.x_points, eq.psi_sep = [upx, lowx], [1.0, 1.02]
     elif topo in ("ldn", "ldn_upper_outer_start"):
         eq.x_points, eq.psi_sep = [lowx, upx], [1.0, 1.1]
     elif topo in ("udn", "udn_upper_outer_start"):
